@@ -90,7 +90,10 @@ top:
 	defer aux.moo.Unlock()
 	if gmeth := aux.methods[string(key)]; gmeth != nil && 0 < len(gmeth.Combinations) {
 		comb := meth.Combinations[0]
-		gcomb := gmeth.Combinations[0]
+		// A call in progress on another thread might still be using the
+		// combination so a modified copy replaces it instead of changing
+		// it in place.
+		gcomb := *gmeth.Combinations[0]
 		// Just one of the daemon callers of meth should be set.
 		if comb.Primary != nil {
 			gcomb.Primary = nil
@@ -111,6 +114,8 @@ top:
 			if len(gmeth.Combinations) == 0 {
 				delete(aux.methods, string(key))
 			}
+		} else {
+			gmeth.Combinations[0] = &gcomb
 		}
 		if 0 < len(aux.cache) { // clear cache
 			aux.cache = map[string]*slip.Method{}
